@@ -204,6 +204,10 @@ async def one_message(part, kind, c, b, r):
     ranges = [(r.randint(0, len(want) + 1), r.randint(1, len(want) + 2)) for _ in range(r.randint(2, 3))]
     if r.random() < 0.6:
         ranges.append((ranges[0][0], ranges[0][1] + r.randint(1, 5)))
+    if r.random() < 0.35:
+        # numbers that differ by 2**61 - 1 have the same Python hash: they are different ranges all the same
+        o_, n_ = ranges[0]
+        ranges.append(r.choice([(o_ + (2 ** 61 - 1), n_), (o_, n_ + (2 ** 61 - 1))]))
     r.shuffle(ranges)
     ranges = list(dict.fromkeys(ranges))
     out = await c.send(b'a UID FETCH %d (' % uid + b' '.join(b'BODY.PEEK[]<%d.%d>' % rg for rg in ranges) + b')\r\n')
